@@ -210,6 +210,16 @@ def fam_c09(tier, rng):
             scs.append(default_scenario(jobs=jobs, actors={"a0": {"queue": "q0", "policy": ["const", 0]}},
                                         worker={"tasks_limit": tl, "messages_limit": 0, "grace_s": 0.5},
                                         horizon_ms=9000, deadline_ms=7000))
+    # a saturated worker on the server-backed brokers (pause / unpause of the consumer is a round trip there): a single slot,
+    # a backlog, executions that end with a result store or with a retry that re-queues the message at once
+    for be in ("rabbit", "redis"):
+        for tl in (1, 2):
+            for res in (False, True):
+                jobs = [{"id": f"m{k}", "actor": "a0", "script": ["raise", "ok"] if k % 3 == 1 else ["ok"], "retries": 1,
+                         "dur_ms": [rng.choice([20, 100])], "at_ms": rng.choice([0, 0, 150]), "result": res} for k in range(6)]
+                scs.append(default_scenario(jobs=jobs, actors={"a0": {"queue": "q0", "policy": ["const", 0]}}, backend=be, seed=rng.randint(0, 9999),
+                                            worker={"tasks_limit": tl, "messages_limit": 0, "grace_s": 0.5}, results=res,
+                                            horizon_ms=9000, deadline_ms=7000))
     return scs
 
 
